@@ -81,6 +81,11 @@ pub struct Interpreter<TStdlib: Stdlib, TStdIn: Input, TStdOut: Printer, TLpt1: 
     /// The statement marks of the callers, saved while a subprogram runs.
     saved_statement_marks: Vec<(usize, usize)>,
 
+    /// The PRINT state of the callers: a PRINT statement that runs inside a function
+    /// called from an item of a PRINT statement must not change the device, the format
+    /// or the pending separator of that outer statement.
+    saved_print_states: Vec<PrintState>,
+
     last_error_address: Option<usize>,
 
     last_error_code: Option<i32>,
@@ -304,6 +309,7 @@ impl<TStdlib: Stdlib, TStdIn: Input, TStdOut: Printer, TLpt1: Printer>
             value_stack: vec![],
             statement_mark: (0, 0),
             saved_statement_marks: vec![],
+            saved_print_states: vec![],
             last_error_address: None,
             last_error_code: None,
             print_state: PrintState::new(),
@@ -426,18 +432,23 @@ impl<TStdlib: Stdlib, TStdIn: Input, TStdOut: Printer, TLpt1: Printer>
                 self.context.stop_collecting_arguments();
                 self.stacktrace.insert(0, pos);
                 self.saved_statement_marks.push(self.statement_mark);
+                self.saved_print_states.push(self.print_state.clone());
             }
             Instruction::PushStaticStack(scope_name) => {
                 self.context
                     .stop_collecting_arguments_static(scope_name.clone());
                 self.stacktrace.insert(0, pos);
                 self.saved_statement_marks.push(self.statement_mark);
+                self.saved_print_states.push(self.print_state.clone());
             }
             Instruction::PopStack => {
                 self.context.pop();
                 self.stacktrace.remove(0);
                 // back to the statement of the caller
                 self.statement_mark = self.saved_statement_marks.pop().unwrap_or((0, 0));
+                if let Some(print_state) = self.saved_print_states.pop() {
+                    self.print_state = print_state;
+                }
             }
             Instruction::EnqueueToReturnStack(index) => {
                 subprogram::enqueue_to_return_stack(self, *index);
@@ -631,6 +642,9 @@ impl<TStdlib: Stdlib, TStdIn: Input, TStdOut: Printer, TLpt1: Printer>
         let call_pos = self.stacktrace.remove(0);
         self.context.pop();
         self.statement_mark = self.saved_statement_marks.pop().unwrap_or((0, 0));
+        if let Some(print_state) = self.saved_print_states.pop() {
+            self.print_state = print_state;
+        }
         RuntimeErrorPos::new(err, call_pos)
     }
 
